@@ -66,6 +66,7 @@ type Exec struct {
 	mu            sync.Mutex
 	constSliceArr map[string]*Term
 	usedExterns   map[string]bool
+	boxes         map[int]*Value // box identity term id -> boxed (non-pointer) value
 }
 
 type writeSet struct {
